@@ -10,6 +10,15 @@ CHECKS = {
  'C03': dict(cat='proof', tech='Lean 4 + Mathlib theorem: extended Cauchy matrices are non-singular => all minors of the 6x251 generator invertible => unique erasure recovery and minimum distance np+1; per-run kernel check that tables.c is that matrix; differential harness over every decoder',
    text='Theorems (no bound on k, nd<=251, np<=6): every square sub-matrix of the generator is invertible; the surviving blocks determine up to np lost blocks uniquely for any admissible parity subset; two stripes differ in >= np+1 blocks (so a candidate set leaving a corrupted block unlisted cannot be consistent). The per-run obligations prove raid_gfcauchy of today is that matrix. That each decoder variant computes that unique solution and modifies nothing else is checked by executing all of them (exhaustive failure sets for small geometries, seeded for large) against the Lean-computed generator.',
    note='Trusted: Lean kernel, Mathlib; the decoders are tied by correspondence, not proved; z-mode (power matrix) MDS is harness-only; raid_invert is compared with the Lean Gauss-Jordan model on sampled minors.', ref='6 C03'),
+ 'C06': dict(cat='proof', tech='Lean 4 invariant proof by induction over operations on an abstract sync state machine + runtime check of the same invariant with an independent oracle (Lean content decoder + Lean genSpec + harness version store) after every command of generated histories',
+   text='Theorem inv_reachable: for every sequence of scan marks, completed/skipped stripes, parity written without the content saved, fix and no-op commands, every stripe whose allocated blocks are all recorded as synced has parity = gen(synced contents) in every level (gen abstract, any nd, np). Tie: after EVERY command of seeded histories (full/partial/-S -B/killed/-h/-F/-R/autosave syncs, scrub, filtered fix, touch, rehash, interleaved file operations incl. pending-focused churn) the content file is decoded by the Lean decoder and parity of every fully synced stripe is recomputed by the Lean genSpec from the harness own copy of every file version and compared with the parity files; extent well-formedness is checked on the decoded map.',
+   note='The abstract machine is hand-written (partial): the C scan/sync code is tied to it only through the runtime invariant check on sampled histories; fault-free histories only.', ref='6 C06'),
+ 'C09': dict(cat='proof', tech='Lean 4 theorems (CRC-32C single-byte detection by injectivity of the bit step; save-protocol acceptor with power-loss crash model) + sweep of damaged content files on an ASan/UBSan build + shim syscall logs accepted by the proved acceptor + kill sweep',
+   text='Theorems: changing any single byte (hence bit) of a message changes its CRC-32C; any call trace accepted by the save protocol leaves, after a crash at any call index and loss of everything not fsynced, each content copy complete-old or complete-new, and every rename is preceded by fsync-after-last-write, close and verification. Tie: every truncation and single-byte mutation of three content shapes is run against the sanitizer build (must exit non-zero, modify nothing) and the Lean decoder (must reject); real save sequences with 1..5 copies logged by the LD_PRELOAD shim must be accepted by the Lean acceptor; kill before/after/mid each content call.',
+   note='"Never loaded" for a byte that re-segments the parse rests on the CRC reaching an N record (2^-32 coincidence not excluded by theorem); memory safety is sanitizer evidence only; POSIX rename/fsync semantics assumed.', ref='6 C09'),
+ 'C10': dict(cat='proof', tech='Lean 4 round-trip theorems for the content codec primitives, block runs and simple records + byte-identical re-serialisation by the Lean model of every content file the binary writes in generated histories',
+   text='Theorems: getb32/getb64/getStr/getLe32/getRaw invert their writers for every value (varint length boundaries included, no bound), hash lists and block runs of file records and the simple records are read back exactly. Tie: for every content file left by every command of seeded histories, Lean parse -> Lean serialise is byte-identical to the file (so the Lean record model IS the format), all copies are identical, the decoded files/links/per-stripe info equal `list -l`/`status -G -l`, and test-rewrite reproduces the bytes.',
+   note='Whole-file round trip (all record kinds composed) is established by the byte-identical correspondence on sampled files, not by a single theorem; in-memory state before a save is not observable, so a save that drops state consistently is only caught through C06-style semantic oracles.', ref='6 C10'),
 }
 
 NOT_YET = {}
